@@ -664,9 +664,16 @@ fn known_hit_violations(sc: &Scenario, out: &Outcome, report: &mut RunReport) {
             *report.counters.entry("probe_c16_unrecorded_without_foreign_material".into()).or_default() += 1;
             continue;
         }
-        let without_foreign: Vec<Event> = prefix.iter().filter(|e| !matches!(e, Event::Forge { .. })).cloned().collect();
+        let without_foreign: Vec<Event> = prefix
+            .iter()
+            .filter(|e| !matches!(e, Event::Forge { .. }))
+            .map(|e| match e {
+                Event::DeliverDmqBatch { ids, .. } => Event::DeliverDmqBatch { ids: ids.clone(), junk_at: vec![] },
+                other => other.clone(),
+            })
+            .collect();
         let cf1 = execute_with(sc, Some(&without_foreign), false, &ExecOptions::default());
-        if cf1.known_hits.iter().any(|(h, _)| h.msg_id == hit.msg_id) {
+        if cf1.known_hits.iter().any(|(h, _)| h.msg_id == hit.msg_id && h.clause == hit.clause) {
             *report.counters.entry("probe_c16_unrecorded_also_without_foreign_material".into()).or_default() += 1;
             continue;
         }
@@ -680,7 +687,7 @@ fn known_hit_violations(sc: &Scenario, out: &Outcome, report: &mut RunReport) {
         report.violations.push(Violation {
             property: sc.property.clone(),
             clause: hit.clause.clone(),
-            detail: format!("step {}: {} [recorded when the other parties' copies are taken out of the history{}]", hit.step, hit.detail,
+            detail: format!("step {}: {} [recorded when the other parties' copies and messages are taken out of the history{}]", hit.step, hit.detail,
                 if hit.dedup_trigger && finding.is_none() { "; still not recorded without the deduplicating client" } else { "" }),
             finding,
         });
